@@ -358,8 +358,11 @@ func Harness_C09_sequence() {
 		}
 		return r
 	}
-	first := hDocs[zzsym.Choice("first", 7)]
-	second := hDocs[zzsym.Choice("second", 7)]
+	if zzsym.Choice("cache", 2) == 1 {
+		srv.SetQueryCache(graphql.MapCache[*ast.QueryDocument]{})
+	}
+	first := hDocs[zzsym.Choice("first", len(hDocs)-1)]
+	second := hDocs[zzsym.Choice("second", len(hDocs)-1)]
 	get1, get2 := zzsym.Choice("m1", 2) == 0, zzsym.Choice("m2", 2) == 0
 	srv.ServeHTTP(newHWriter(), mk(first, get1))
 	es.execs = nil
